@@ -1045,7 +1045,9 @@ func (env *SEnv) builtin(name string, args []*SExpr, e *SExpr) *SVal {
 		need(1)
 		x := env.materialize(env.tr(args[0]), types.Typ[types.Uint32])
 		if !vc.isBV() {
-			sfail("%s is only available in bv mode", name)
+			// int mode: an uninterpreted function of the word (nothing is known about it beyond being a function)
+			vc.declareFun(name+"!int", []*Sort{SInt}, SInt)
+			return &SVal{T: App(name+"!int", SInt, x.T), Go: types.Typ[types.Uint32]}
 		}
 		x = env.coerce(x, types.Typ[types.Uint32], name)
 		switch name {
